@@ -292,6 +292,41 @@ structure SweepOut where
   lineLeft : Nat     -- segments left in the sweep line when the loop ended
 deriving Repr, Inhabited
 
+/-- after insertion: the new segment against the segment above it; return code 2 (coincident from a common
+    left endpoint) makes both recompute their fields -/
+def checkNext (ar : Arith) (cfg : Cfg) (op : Op) (st : SwSt) (event : Nat) (prev next : Option Nat) :
+    Except Fail SwSt :=
+  match next with
+  | none => pure st
+  | some nx => do
+    let (code, st) ← possibleIntersection ar cfg st event nx
+    if code = 2 then
+      let a := computeFields st.arena event prev op
+      let a := computeFields a nx (some event) op
+      pure { st with arena := a }
+    else pure st
+
+/-- after insertion: the segment below against the new segment -/
+def checkPrev (ar : Arith) (cfg : Cfg) (op : Op) (st : SwSt) (event : Nat) (prev : Option Nat) : Except Fail SwSt :=
+  match prev with
+  | none => pure st
+  | some pv => do
+    let (code, st) ← possibleIntersection ar cfg st pv event
+    if code = 2 then
+      let (line, pp) := st.line.prev (segCmp ar cfg.dbg st.arena) pv
+      let a := computeFields st.arena pv (pp.map (·.1)) op
+      let a := computeFields a event (some pv) op
+      pure { st with arena := a, line := line }
+    else pure st
+
+/-- on removal: the two former neighbours against each other -/
+def checkRemoval (ar : Arith) (cfg : Cfg) (st : SwSt) (prev next : Option (Nat × Unit)) : Except Fail SwSt :=
+  match prev, next with
+  | some (pv, _), some (nx, _) => do
+    let (_, st) ← possibleIntersection ar cfg st pv nx
+    pure st
+  | _, _ => pure st
+
 /-- one iteration of the `while let Some(event) = event_queue.pop()` loop after the pop;
     `true` = `break` -/
 def sweepStep (ar : Arith) (cfg : Cfg) (op : Op) (rightbound sbMaxX : Rat) (st : SwSt) (event : Nat) :
@@ -309,25 +344,8 @@ def sweepStep (ar : Arith) (cfg : Cfg) (op : Op) (rightbound sbMaxX : Rat) (st :
     let prev := prev.map (·.1)
     let next := next.map (·.1)
     let st := { st with line := line, arena := computeFields st.arena event prev op }
-    let st ← match next with
-      | none => pure st
-      | some nx => do
-        let (code, st) ← possibleIntersection ar cfg st event nx
-        if code = 2 then
-          let a := computeFields st.arena event prev op
-          let a := computeFields a nx (some event) op
-          pure { st with arena := a }
-        else pure st
-    let st ← match prev with
-      | none => pure st
-      | some pv => do
-        let (code, st) ← possibleIntersection ar cfg st pv event
-        if code = 2 then
-          let (line, pp) := st.line.prev (segCmp ar cfg.dbg st.arena) pv
-          let a := computeFields st.arena pv (pp.map (·.1)) op
-          let a := computeFields a event (some pv) op
-          pure { st with arena := a, line := line }
-        else pure st
+    let st ← checkNext ar cfg op st event prev next
+    let st ← checkPrev ar cfg op st event prev
     return (false, st)
   else
     match ev.other with
@@ -341,11 +359,7 @@ def sweepStep (ar : Arith) (cfg : Cfg) (op : Op) (rightbound sbMaxX : Rat) (st :
       let (line, prev) := line.prev cmp other
       let (line, next) := line.next cmp other
       let st := { st with line := line }
-      let st ← match prev, next with
-        | some (pv, _), some (nx, _) => do
-          let (_, st) ← possibleIntersection ar cfg st pv nx
-          pure st
-        | _, _ => pure st
+      let st ← checkRemoval ar cfg st prev next
       let (line, _) := st.line.remove (segCmp ar cfg.dbg st.arena) other
       return (false, { st with line := line })
 
